@@ -65,7 +65,7 @@ func runC14(c *ctx) error {
 	}
 	done := 0
 	for iter := 0; done < n && iter < n*4; iter++ {
-		p, src := genParsedPipeline(rng, c.res.Hist, 2)
+		p, src := c.corpusOrGenerated(iter, 3, rng, 2, 0)
 		if p == nil {
 			continue
 		}
